@@ -765,7 +765,8 @@ Lemma pop_step_inv limit st o : pinv limit st ->
   exists c hs ok, pop_step limit st o = Ok (c, hs, ok) /\ pinv limit (c, hs) /\
     (o = PopGet -> (ok = true <-> fst st < limit) /\ (ok = true -> c = fst st + 1) /\ (ok = false -> c = fst st)).
 Proof.
-  destruct st as [sem hs]. intros [Hc Hle]. cbn [fst snd] in *. destruct o as [|i]; cbn [pop_step].
+  destruct st as [sem hs]. intros [Hc Hle]. cbn [fst snd] in *. destruct o as [|i|]; cbn [pop_step];
+    [| | exists sem, hs, true; split; [reflexivity|]; split; [split; assumption | discriminate]].
   - unfold get_permit. destruct (try_acquire limit sem) as [c|] eqn:A.
     + apply try_acquire_some in A. destruct A as [Hlt ->].
       exists (sem + 1), (hs ++ [ReleasePermit false]), true. split; [reflexivity|]. split.
@@ -808,6 +809,14 @@ Proof.
   intros H. destruct (pop_step_inv limit st o H) as (c & hs & ok & E & [I1 I2] & G).
   exists c, hs, ok. repeat split; auto; intros; now apply G.
 Qed.
+
+(* starting the uTP service again changes nothing: slots in use stay in use *)
+Theorem restart_keeps_slots limit st : pop_step limit st PopRestart = Ok (fst st, snd st, true).
+Proof. destruct st; reflexivity. Qed.
+
+Theorem restart_scenario :
+  pops_run 1 [PopGet; PopGet; PopRestart; PopGet] (0, []) = Ok [(true, 1); (false, 1); (true, 1); (false, 1)].
+Proof. vm_compute. reflexivity. Qed.
 
 (* the controller-level witness of a recycled permit object: A released, B acquired, A released again, limit 1:
    in the model B still holds the only slot and the next Get fails *)
